@@ -295,3 +295,81 @@ def rank_owner_rule(prog, chk, rule, file_filter, floor_n, accepted=None):
                    "accessor reads / writes another sample than the one intended" % (x["n"], own, recv),
                    key="%s|%s|%s->%s.%s" % (rule, f.name, x["n"], recv, short), nontrivial=bad)
     chk.floor(rule, n, floor_n)
+
+
+def _root_name(e):
+    while e is not None and (e["k"] in ("Cast", "Index", "Paren") or (e["k"] == "OpCall" and e.get("op") == "[]")):
+        e = e["c"][0]
+    if e is None:
+        return None
+    if e["k"] == "DeclRefExpr":
+        return ("L", e.get("d"), e["n"])
+    if e["k"] == "MemberExpr" and e.get("mk") == "field":
+        return ("F", e["n"], e["n"])
+    return None
+
+
+def guard_agreement_rule(prog, chk, rule, file_filter, floor_n, accepted=None):
+    """a sum and the counter it is later divided by are updated behind the same `if (..) continue;` guards of their loop: a counter
+    incremented before (or after) a guard that the sum obeys counts other samples than the sum holds (a mean over the defined /
+    active samples divided by the number of all samples)."""
+    accepted = accepted or {}
+    n = 0
+    for f in sorted(prog.funcs, key=lambda x: (x.file, x.line)):
+        if f.body is None or not any(s_ in f.file for s_ in file_filter):
+            continue
+        for L in f.walk():
+            if L["k"] != "For" or len(L["c"]) < 4 or L["c"][3] is None:
+                continue
+            body = L["c"][3]
+            stmts = body["c"] if body["k"] == "Block" else [body]
+            guards_before = []       # (statement index, condition text) of top-level `if (c) continue;`
+            upd = {}                 # name key -> (kind, guards, node)
+            seen = []
+            for st in stmts:
+                if st is None:
+                    continue
+                if st["k"] == "If":
+                    cnd, then = st["c"][-3], st["c"][-2]
+                    leaves = then is not None and (then["k"] == "Continue" or (then["k"] == "Block" and any(y is not None and y["k"] == "Continue" for y in then["c"])))
+                    if leaves and st["c"][-1] is None:
+                        seen.append(show(cnd))
+                        continue
+                for x in walk(st):
+                    if x["k"] == "UnOp" and (x.get("op") or "").replace("post", "") == "++":
+                        k_ = _root_name(x["c"][0])
+                        if k_ and k_[0] == "L":
+                            upd.setdefault(k_, ("count", tuple(seen), x))
+                    elif x["k"] == "Assign" and x.get("op") == "+=":
+                        k_ = _root_name(x["c"][0])
+                        if k_:
+                            upd.setdefault(k_, ("sum", tuple(seen), x))
+            counters = {k_: v for k_, v in upd.items() if v[0] == "count"}
+            sums = {k_: v for k_, v in upd.items() if v[0] == "sum"}
+            if not counters or not sums:
+                continue
+            # quotients sum / counter anywhere in the function
+            for x in f.walk():
+                num = den = None
+                if x["k"] == "BinOp" and x.get("op") == "/":
+                    num, den = x["c"][0], x["c"][1]
+                elif x["k"] == "Assign" and x.get("op") == "/=":
+                    num, den = x["c"][0], x["c"][1]
+                if num is None:
+                    continue
+                kn = _root_name(num)
+                kd = None
+                for y in walk(den):
+                    if y["k"] == "DeclRefExpr" and _root_name(y) in counters:
+                        kd = _root_name(y)
+                if kn in sums and kd in counters:
+                    n += 1
+                    why = accepted.get((f.name, kn[2], kd[2]))
+                    ok = sums[kn][1] == counters[kd][1] or bool(why)
+                    if not ok:
+                        chk.analysed(f)
+                    chk.ob(rule, "%s: `%s` and the counter `%s` it is divided by are updated behind the same guards" % (f.name, kn[2], kd[2]), f.loc(x), ok,
+                           detail=None if ok else "the sum is updated after the guards {%s}, the counter after {%s}: the count is not the number of samples that "
+                           "entered the sum (masked / incomplete samples are counted)" % ("; ".join(sums[kn][1]) or "none", "; ".join(counters[kd][1]) or "none"),
+                           key="%s|%s|%s/%s" % (rule, f.name, kn[2], kd[2]), nontrivial=True)
+    chk.floor(rule, n, floor_n)
